@@ -142,3 +142,14 @@ package actionlint
 //@   at_store [C09 C10] ObjectType.Props: fresh(owner)
 //@ func (*ObjectType).DeepCopy
 //@   ensures [C09 C10] istype(result, "*ObjectType") && fresh(dyn(result, "*ObjectType"))
+
+// C09 / C03: the visitor's protocol on a workflow: every pass sees the workflow before any job, every job is
+// visited, every pass sees the workflow again afterwards (unless a pass fails)
+//@ func (*Visitor).Visit
+//@   props C09 C03
+//@   loop "range v.passes":
+//@     body_calls iface:Pass.VisitWorkflowPre iff true
+//@   loop "range n.Jobs":
+//@     body_calls (*Visitor).visitJob iff true
+//@   loop "range v.passes" #2:
+//@     body_calls iface:Pass.VisitWorkflowPost iff true
